@@ -120,6 +120,34 @@ def o_curve(case):
     return None
 
 
+def o_offsets(case):
+    """PSK with phase offsets (constructor argument and setPhaseOffset histories): the order M, K and the curves
+    do not depend on the offset, and the SER is still the one implied by the constellation actually emitted"""
+    f = _f()
+    M = case['M']
+    ref = f.PSK(M)
+    snr = np.array(case['snr'], dtype=float)
+    ser0 = np.asarray(ref.calcTheoreticalSER(snr), dtype=float)
+    m = f.PSK(M, case['offsets'][0])
+    for step, off in enumerate(case['offsets']):
+        if step:
+            m.setPhaseOffset(off)
+        s = np.asarray(m.symbols)
+        if s.size != M or m.M != M or abs(float(m.K) - math.log2(M)) > 1e-12:
+            return 'offset:order-changed', 'offset %r: %d symbols, M=%r, K=%r' % (off, s.size, m.M, m.K)
+        d = dmin_of(s)
+        if not rel_close(d, 2 * math.sin(math.pi / M), 1e-9):
+            return 'offset:dmin-changed', 'offset %r: d_min %r' % (off, d)
+        ser = np.asarray(m.calcTheoreticalSER(snr), dtype=float)
+        if not np.allclose(ser, ser0, rtol=1e-12, atol=0):
+            return 'offset:curve-changed', 'offset %r' % off
+        for i, sdb in enumerate(snr):
+            q = Qf(d / (2.0 * math.sqrt(1.0 / (2.0 * 10.0 ** (sdb / 10.0)))))
+            if not (rel_close(ser[i], 2.0 * q, 1e-9) or abs(ser[i] - 2.0 * q) <= 4 * SLACK):
+                return 'offset:ser-not-implied-by-constellation', 'offset %r snr %r' % (off, sdb)
+    return None
+
+
 def o_limit(case):
     m = make(case['kind'], case['M'])
     v = float(m.calcTheoreticalSER(400.0))
@@ -168,7 +196,7 @@ def o_calls(case):
     return None
 
 
-ORACLES = {'calls': o_calls, 'curves': o_curve, 'limit': o_limit, 'qfunc': o_qfunc}
+ORACLES = {'offsets': o_offsets, 'calls': o_calls, 'curves': o_curve, 'limit': o_limit, 'qfunc': o_qfunc}
 
 
 def run_oracle(ctx, call, case, key=None):
@@ -271,6 +299,11 @@ def check(ctx):
     for kind, M in mods(psk_max, qam_max):
         run_oracle(ctx, 'curves', {'kind': kind, 'M': M, 'snr': snrs, 'lengths': lengths}, key=('curves', kind, M))
         run_oracle(ctx, 'limit', {'kind': kind, 'M': M}, key=('limit', kind, M))
+        if kind == 'PSK':
+            offs = [ctx.rng.uniform(-7, 7) for _ in range(8)] + [1.739, 1.813, math.pi / 8, 0.1]
+            ctx.rng.shuffle(offs)
+            run_oracle(ctx, 'offsets', {'M': M, 'offsets': offs[:6 if M > 64 else 12], 'snr': [-10.0, 0.0, 10.0, 20.0]},
+                       key=('offsets', M))
         run_oracle(ctx, 'calls', {'kind': kind, 'M': M, 'snr': [float(v) for v in range(-30, 61, 6)],
                                   'L': ctx.rng.choice([1, 7, 100])}, key=('calls', kind, M))
     for x in [0.0, 0.1, 1.0, 2.5, 5.0, 10.0, 20.0, 37.0, -1.0, -6.0] + [ctx.rng.uniform(-8, 38) for _ in range(40)]:
